@@ -4,7 +4,7 @@
    with the shifted time of day.  As long as such a shift stays on its calendar day the walk still visits one day per step, reaches the
    week's first day — possibly at 01:00 — and the trailing start_of('day') of _start_of_week puts the result on that day's midnight.
    Hence: when the midnight of the value's day and of the week's first day exist, start_of('week') is the week's first microsecond, whatever
-   happens to the midnights strictly inside the walk. *)
+   happens to the midnights strictly inside the walk.  The same for next() / end_of('week') and the last microsecond of the week. *)
 From Coq Require Import ZArith List Bool Lia ZifyBool.
 From PV Require Import Lib.PyBase Spec.Cal Spec.Zone Spec.NativeDT Proofs.CalFacts Proofs.ZoneFacts Proofs.AddDurationFacts Proofs.C03Facts.
 From PV Require Import Gen.Constants Gen.Helpers Gen.AddDuration Model.TzConvert Model.StartEndBase Gen.StartEnd Model.StartEnd.
@@ -36,6 +36,11 @@ Proof.
   - replace (off_local z (sec W) true - off_local z (sec W) false >? 0) with true by lia. reflexivity.
   - cbn [Z.gtb Z.compare]. rewrite andb_false_r. reflexivity.
 Qed.
+
+Lemma mod7_step a : 1 <= a mod 7 -> (a - 1) mod 7 = a mod 7 - 1.
+Proof. lia. Qed.
+Lemma day_mul_div k : k * us_per_day / us_per_day = k.
+Proof. apply Z.div_mul. rewrite upd_val. discriminate. Qed.
 
 (* one step of the walk: a calendar day back (forward), then the forward shift of a skipped wall time *)
 Lemma step_day_dst v k : v_kind v = 2 -> wall_in_range (v_W v) = true -> -1 <= k <= 1 ->
@@ -143,9 +148,9 @@ Proof.
       by (apply St; cbn [v1 upd fst v_W]; rewrite Elo, Ex, upd_val in *; lia).
     destruct (step_day_dst v1 (-1) Hk R1 ltac:(lia) R2 S2) as [W2 [f2 [S [RW2 [D2 _]]]]].
     rewrite S. cbn [bind].
-    assert (D1 : v_W v1 / us_per_day = k) by (cbn [v1 upd fst v_W]; rewrite upd_val; lia).
+    assert (D1 : v_W v1 / us_per_day = k) by (cbn [v1 upd fst v_W]; apply day_mul_div).
     rewrite D1 in D2.
-    assert (Ej : (k + -1 - ws) mod 7 = j - 1) by (unfold j; lia).
+    assert (Ej : (k + -1 - ws) mod 7 = j - 1) by (replace (k + -1 - ws) with (k - ws - 1) by ring; apply mod7_step; exact Hj1).
     pose proof (walk_back_dst WALK_FUEL (upd v1 (W2, f2)) ws Hk RW2 Hws) as WB. cbv zeta in WB.
     cbn [upd fst snd v_W v_zone v_kind v_fold v1] in WB. rewrite D2, Ej in WB.
     destruct WB as [W3 [f3 [Hw [R3 D3]]]].
@@ -159,6 +164,108 @@ Proof.
   - assert (Hj0 : j = 0) by (unfold j; lia).
     rewrite (start_of_day_dst v Hk Hr); [|fold W; rewrite <- unit_lo_3 with (ws := 0); exact Hsx].
     fold W. fold k. replace (k * us_per_day) with lo by (rewrite Elo; f_equal; lia).
+    exists (v_fold v). split; [reflexivity|apply Idem].
+Qed.
+
+(* ---------- the forward walk: end_of('week') ---------- *)
+Lemma mod7_step_fwd a : 1 <= a mod 7 -> (a - 1) mod 7 = a mod 7 - 1.
+Proof. lia. Qed.
+Lemma we_distance ws k : 0 <= ws <= 6 -> ((ws + 6) mod 7 - k) mod 7 = 6 - (k - ws) mod 7.
+Proof. lia. Qed.
+
+Lemma walk_fwd_dst fuel : forall v wd, v_kind v = 2 -> wall_in_range (v_W v) = true -> 0 <= wd <= 6 ->
+  let k := v_W v / us_per_day in
+  let j := (wd - k) mod 7 in
+  j < Z.of_nat fuel -> k + j <= 3652058 ->
+  (forall W', (k + 1) * us_per_day <= W' < (k + j + 1) * us_per_day -> stays_in_day (v_zone v) W') ->
+  exists W' f', dt_walk fuel 1 wd v = Ok (mkdtv (v_zone v) (v_kind v) W' f') /\ wall_in_range W' = true /\ W' / us_per_day = k + j.
+Proof.
+  induction fuel as [|fuel IH]; intros v wd Hk Hr Hwd k j Hj H0 St; [lia|].
+  cbn [dt_walk]. rewrite wall_dow_eq. fold k.
+  pose proof (proj1 (wall_in_range_iff _) Hr) as HW.
+  destruct (negb (k mod 7 =? wd)) eqn:E.
+  - assert (Hj1 : 1 <= j) by (unfold j; lia).
+    assert (Hr2 : wall_in_range (v_W v + 1 * us_per_day) = true)
+      by (apply wall_in_range_iff; unfold k in *; rewrite upd_val in *; lia).
+    assert (St2 : stays_in_day (v_zone v) (v_W v + 1 * us_per_day))
+      by (apply St; unfold k in *; rewrite upd_val in *; lia).
+    destruct (step_day_dst v 1 Hk Hr ltac:(lia) Hr2 St2) as [W1 [f1 [S [R1 [D1 _]]]]].
+    rewrite S. cbn [bind].
+    specialize (IH (upd v (W1, f1)) wd Hk R1 Hwd). cbv zeta in IH. cbn [upd fst snd v_W v_zone v_kind v_fold] in IH.
+    rewrite D1 in IH. fold k in IH.
+    assert (Ej : (wd - (k + 1)) mod 7 = j - 1) by (replace (wd - (k + 1)) with (wd - k - 1) by ring; apply mod7_step_fwd; exact Hj1).
+    rewrite Ej in IH.
+    destruct IH as [W' [f' [Hw [Rw Dw]]]]; [lia|lia| |].
+    + intros W'' HW''. apply St. rewrite upd_val in *. lia.
+    + exists W', f'. cbn [upd fst snd v_W v_zone v_kind v_fold]. split; [exact Hw|]. split; [exact Rw|]. lia.
+  - assert (Hj0 : j = 0) by (unfold j; lia).
+    exists (v_W v), (v_fold v). split; [destruct v; reflexivity|]. split; [exact Hr|]. fold k. lia.
+Qed.
+
+Lemma end_of_day_dst v : v_kind v = 2 -> wall_in_range (v_W v) = true ->
+  ~ wall_skipped (v_zone v) (sec (v_W v / us_per_day * us_per_day + (us_per_day - 1))) ->
+  dt_end_of_day v = Ok (v_W v / us_per_day * us_per_day + (us_per_day - 1), v_fold v).
+Proof.
+  intros Hk Hr Hs. unfold dt_end_of_day.
+  rewrite (set_from_end v 3 Hr ltac:(lia)); [|right; right; rewrite unit_hi_3; exact Hs].
+  rewrite unit_hi_3. unfold fold_out. rewrite Hk. reflexivity.
+Qed.
+
+Theorem end_week_dst ws v : v_kind v = 2 -> wall_in_range (v_W v) = true -> 0 <= ws <= 6 ->
+  let z := v_zone v in let W := v_W v in let hi := unit_hi 4 ws W in let we := (ws + 6) mod 7 in
+  hi <= 315537897599999999 ->
+  ~ wall_skipped z (sec (unit_lo 3 0 W)) ->            (* the midnight of the value's own day exists (next() starts from it) *)
+  ~ wall_skipped z (sec hi) ->                         (* the last second of the week's last day exists *)
+  (forall W', unit_hi 3 0 W < W' <= hi -> stays_in_day z W') ->     (* skipped wall times on the walked days are moved within their day *)
+  exists f', dt_end_of we 4 v = Ok (hi, f') /\ dt_end_of we 4 (upd v (hi, f')) = Ok (hi, f').
+Proof.
+  intros Hk Hr Hws z W hi we H0 Hsx Hshi St.
+  pose proof (proj1 (wall_in_range_iff _) Hr) as HW. fold W in HW.
+  assert (Hwe : 0 <= we <= 6) by (unfold we; lia).
+  set (k := W / us_per_day). set (j := (we - k) mod 7).
+  assert (Ej6 : j = 6 - (k - ws) mod 7) by (unfold j, we; apply we_distance; exact Hws).
+  assert (Ehi : hi = (k + j) * us_per_day + (us_per_day - 1)) by (unfold hi; rewrite unit_hi_4; fold k; rewrite Ej6, upd_val; lia).
+  assert (Ex : unit_hi 3 0 W = k * us_per_day + (us_per_day - 1)) by (rewrite unit_hi_3; reflexivity).
+  assert (Hj0 : 0 <= j <= 6) by (unfold j; lia).
+  assert (Hkj : k + j <= 3652058) by (rewrite Ehi, upd_val in H0; lia).
+  assert (Hk0 : 0 <= k) by (unfold k; rewrite upd_val; lia).
+  assert (Rhi : wall_in_range hi = true) by (apply wall_in_range_iff; rewrite Ehi, upd_val in *; lia).
+  assert (Dhi : hi / us_per_day * us_per_day + (us_per_day - 1) = hi) by (rewrite Ehi, upd_val; lia).
+  assert (DOWhi : wall_dow hi = we) by (rewrite wall_dow_eq, Ehi; unfold j; rewrite upd_val; lia).
+  assert (Idem : forall f', dt_end_of we 4 (upd v (hi, f')) = Ok (hi, f')).
+  { intros f'. cbn [dt_end_of]. unfold dt_end_of_week. cbn [upd fst snd v_W]. rewrite DOWhi.
+    replace (negb (we =? we)) with false by lia.
+    rewrite (end_of_day_dst (upd v (hi, f')) Hk); cbn [upd fst snd v_W v_zone v_fold]; [rewrite Dhi; reflexivity|exact Rhi|rewrite Dhi; exact Hshi]. }
+  cbn [dt_end_of]. unfold dt_end_of_week. fold W. rewrite wall_dow_eq. fold k.
+  destruct (negb (k mod 7 =? we)) eqn:E.
+  - assert (Hj1 : 1 <= j) by (unfold j; lia).
+    unfold dt_next.
+    rewrite (start_of_day_dst v Hk Hr); [|fold W; rewrite <- unit_lo_3 with (ws := 0); exact Hsx].
+    cbn [bind]. fold W. fold k.
+    set (v1 := upd v (k * us_per_day, v_fold v)).
+    assert (R1 : wall_in_range (v_W v1) = true) by (apply wall_in_range_iff; cbn; rewrite upd_val in *; lia).
+    assert (R2 : wall_in_range (v_W v1 + 1 * us_per_day) = true)
+      by (apply wall_in_range_iff; cbn [v1 upd fst v_W]; rewrite upd_val in *; lia).
+    assert (S2 : stays_in_day (v_zone v1) (v_W v1 + 1 * us_per_day))
+      by (apply St; cbn [v1 upd fst v_W]; rewrite Ehi, Ex, upd_val in *; lia).
+    destruct (step_day_dst v1 1 Hk R1 ltac:(lia) R2 S2) as [W2 [f2 [S [RW2 [D2 _]]]]].
+    rewrite S. cbn [bind].
+    assert (D1 : v_W v1 / us_per_day = k) by (cbn [v1 upd fst v_W]; apply day_mul_div).
+    rewrite D1 in D2.
+    assert (Ej : (we - (k + 1)) mod 7 = j - 1) by (replace (we - (k + 1)) with (we - k - 1) by ring; apply mod7_step_fwd; exact Hj1).
+    pose proof (walk_fwd_dst WALK_FUEL (upd v1 (W2, f2)) we Hk RW2 Hwe) as WB. cbv zeta in WB.
+    cbn [upd fst snd v_W v_zone v_kind v_fold v1] in WB. rewrite D2, Ej in WB.
+    destruct WB as [W3 [f3 [Hw [R3 D3]]]].
+    + unfold WALK_FUEL. lia.
+    + lia.
+    + intros W'' HW''. apply St. rewrite Ehi, Ex. rewrite upd_val in *. lia.
+    + cbn [upd fst snd v_W v_zone v_kind v_fold v1]. rewrite Hw. cbn [bind].
+      assert (E3 : W3 / us_per_day * us_per_day + (us_per_day - 1) = hi) by (rewrite Ehi, D3; f_equal; f_equal; lia).
+      rewrite (end_of_day_dst (mkdtv (v_zone v) (v_kind v) W3 f3) Hk); cbn [v_W v_zone v_fold]; [|exact R3|rewrite E3; exact Hshi].
+      rewrite E3. exists f3. split; [reflexivity|apply Idem].
+  - assert (Hj00 : j = 0) by (unfold j; lia).
+    rewrite (end_of_day_dst v Hk Hr); [|fold W; fold k; replace (k * us_per_day + (us_per_day - 1)) with hi by (rewrite Ehi; f_equal; f_equal; lia); exact Hshi].
+    fold W. fold k. replace (k * us_per_day + (us_per_day - 1)) with hi by (rewrite Ehi; f_equal; f_equal; lia).
     exists (v_fold v). split; [reflexivity|apply Idem].
 Qed.
 
@@ -184,8 +291,13 @@ Proof.
 Qed.
 
 (* the hypotheses of start_week_dst hold for that value although a midnight strictly inside the walk is skipped *)
-Lemma tehran_off w f : off_local tehran_2018 w f = if w <? 63657261000 + wallb f 12600 16200 then 12600 else 16200.
-Proof. reflexivity. Qed.
+Lemma tehran_gap_shift w : gap_shift tehran_2018 w = if (63657273600 <=? w) && (w <? 63657277200) then 3600 else 0.
+Proof.
+  unfold gap_shift, off_local, tehran_2018. cbn [z_init z_trans off_local_l wallb].
+  change (63657261000 + Z.min 12600 16200) with 63657273600. change (63657261000 + Z.max 12600 16200) with 63657277200.
+  destruct (w <? 63657273600) eqn:A; destruct (w <? 63657277200) eqn:B; try lia;
+    destruct (63657273600 <=? w) eqn:C; try lia; reflexivity.
+Qed.
 
 Example start_week_dst_satisfiable : forall f,
   let v := tehran_sat f in let lo := unit_lo 4 0 (v_W v) in
@@ -198,10 +310,36 @@ Proof.
   assert (Elo : lo = 63657014400000000) by (vm_compute; reflexivity).
   assert (E3 : unit_lo 3 0 (v_W v) = 63657446400000000) by (vm_compute; reflexivity).
   split; [reflexivity|]. split; [reflexivity|]. split; [rewrite Elo; lia|].
-  split; [rewrite E3; vm_compute; lia|]. split; [rewrite Elo; vm_compute; lia|]. split.
-  - intros W' HW'. rewrite Elo, E3 in HW'. unfold stays_in_day, gap_shift, sec, MEG. cbn [v v_zone tehran_sat].
-    rewrite !tehran_off. unfold wallb. cbn [Z.min Z.max Z.compare Pos.compare Pos.compare_cont Z.add Pos.add]. rewrite upd_val.
-    destruct (W' / 1000000 <? 63657261000 + Z.min 12600 16200) eqn:A;
-    destruct (W' / 1000000 <? 63657261000 + Z.max 12600 16200) eqn:B; cbn [Z.gtb Z.compare Pos.compare Pos.compare_cont Z.sub Z.add Z.opp Z.pos_sub]; lia.
+  split; [rewrite E3; intros H; vm_compute in H; discriminate|]. split; [rewrite Elo; intros H; vm_compute in H; discriminate|]. split.
+  - intros W' HW'. rewrite Elo, E3 in HW'. unfold stays_in_day, sec, MEG. cbn [v v_zone tehran_sat].
+    rewrite tehran_gap_shift, upd_val.
+    destruct ((63657273600 <=? W' / 1000000) && (W' / 1000000 <? 63657277200)) eqn:A; lia.
   - exists 63657273600000000. rewrite Elo, E3. split; [lia|]. vm_compute. reflexivity.
+Qed.
+
+(* Tuesday 2018-03-20 12:00:00 +03:30: the forward walk of next(SUNDAY) passes Thursday's skipped midnight *)
+Definition tehran_tue (f : bool) : dtv := mkdtv tehran_2018 2 63657144000000000 f.
+Lemma tehran_end_facts :
+  unit_hi 4 0 63657144000000000 = 63657619199999999 /\                      (* Sunday 2018-03-25 23:59:59.999999 *)
+  (forall f, dt_next (tehran_tue f) 6 = Ok (mkdtv tehran_2018 2 63657536400000000 true)) /\     (* next(SUNDAY) alone: Sunday 01:00 *)
+  (forall f, dt_end_of 6 4 (tehran_tue f) = Ok (63657619199999999, true)).
+Proof. split; [vm_compute; reflexivity|]. split; intros [|]; vm_compute; reflexivity. Qed.
+
+Example end_week_dst_satisfiable : forall f,
+  let v := tehran_tue f in let hi := unit_hi 4 0 (v_W v) in
+  v_kind v = 2 /\ wall_in_range (v_W v) = true /\ hi <= 315537897599999999 /\
+  ~ wall_skipped (v_zone v) (sec (unit_lo 3 0 (v_W v))) /\ ~ wall_skipped (v_zone v) (sec hi) /\
+  (forall W', unit_hi 3 0 (v_W v) < W' <= hi -> stays_in_day (v_zone v) W') /\
+  (exists W', unit_hi 3 0 (v_W v) < W' <= hi /\ wall_skipped (v_zone v) (sec W')).
+Proof.
+  intros f v hi.
+  assert (Ehi : hi = 63657619199999999) by (vm_compute; reflexivity).
+  assert (E3 : unit_hi 3 0 (v_W v) = 63657187199999999) by (vm_compute; reflexivity).
+  assert (E0 : unit_lo 3 0 (v_W v) = 63657100800000000) by (vm_compute; reflexivity).
+  split; [reflexivity|]. split; [reflexivity|]. split; [rewrite Ehi; lia|].
+  split; [rewrite E0; intros H; vm_compute in H; discriminate|]. split; [rewrite Ehi; intros H; vm_compute in H; discriminate|]. split.
+  - intros W' HW'. rewrite Ehi, E3 in HW'. unfold stays_in_day, sec, MEG. cbn [v v_zone tehran_tue].
+    rewrite tehran_gap_shift, upd_val.
+    destruct ((63657273600 <=? W' / 1000000) && (W' / 1000000 <? 63657277200)) eqn:A; lia.
+  - exists 63657273600000000. rewrite Ehi, E3. split; [lia|]. vm_compute. reflexivity.
 Qed.
